@@ -571,6 +571,15 @@ impl Catalog {
             }
         };
 
+        // A table's indexes belong to it: they go with the table whether or not CASCADE was
+        // asked for (CASCADE is about OTHER tables that depend on this one). Leaving them
+        // behind kept their names reserved and their pages allocated for good.
+        for index in rel.get_indexes() {
+            if let Ok(index_relation) = self.get_relation(index.id(), builder, snapshot) {
+                self.remove_relation(index_relation, builder, snapshot, false)?;
+            }
+        }
+
         // First, deallocate the relation.
         // Deallocate the relation.
       {
